@@ -59,6 +59,12 @@ func checkC11(c *hx.Ctx) {
 		if i%3 == 0 {
 			types = ref.KeyTypes
 		}
+		shortDelta := i%4 == 2
+		if shortDelta {
+			// the protocol's time delta is only the DEFAULT length of a window: explicit windows may be far longer
+			p.MaxOperationTimeDelta = 7
+			c.Count("chains_with_windows_longer_than_the_time_delta")
+		}
 		v := hx.NewVersion(p, hx.VersionOpts{})
 		pc := hx.NewClient(v)
 		maxDelta := int64(p.MaxOperationTimeDelta)
@@ -85,8 +91,13 @@ func checkC11(c *hx.Ctx) {
 			fail("client.NewCreateRequest refused valid inputs: "+err.Error(), map[string]interface{}{"patches": patches, "opaque": opaque})
 			return
 		}
-		if r.Bool() {
+		switch r.Intn(4) {
+		case 0:
 			d.Kid = "key-" + genID(r, "")
+		case 1:
+			// key ids as DID URLs / with characters JSON encoders like to escape
+			d.Kid = hx.Pick(r, []string{"did:example:123?service=keys&relativeRef=%2Fupdate#key-1", "<key>", "a&b", "k>1", "quote\"k", "é\u2028"})
+			c.Count("chains_with_unusual_key_ids")
 		}
 		if i%2 == 0 {
 			d.ReuseSigners = true
@@ -101,6 +112,9 @@ func checkC11(c *hx.Ctx) {
 			case 0:
 				return int64(t), int64(t) + 500
 			case 1:
+				if shortDelta {
+					return int64(t), int64(t) + 500
+				}
 				return int64(t) + 5, 0
 			case 2:
 				return 0, int64(t) + 500
@@ -277,6 +291,8 @@ func checkC11(c *hx.Ctx) {
 		c.Floor("parsed_back:"+t, 20)
 	}
 	c.Floor("chains_crossing_a_protocol_upgrade", 50)
+	c.Floor("chains_with_windows_longer_than_the_time_delta", 100)
+	c.Floor("chains_with_unusual_key_ids", 100)
 	_ = protocol.Protocol{}
 }
 
